@@ -4,6 +4,7 @@ package main
 
 import (
 	"fmt"
+	"regexp"
 	"go/types"
 	"math/big"
 	"strings"
@@ -292,8 +293,18 @@ func flatten(v Val) ([]string, bool) {
 	return nil, false
 }
 
+var byteRe = regexp.MustCompile(`\bbyte\b`)
+var runeRe = regexp.MustCompile(`\brune\b`)
+var typeKeyCache = map[types.Type]string{}
+
+// typeKey is the canonical name of a type (byte and uint8, rune and int32 are identical types).
 func typeKey(t types.Type) string {
-	return types.TypeString(t, nil)
+	if k, ok := typeKeyCache[t]; ok {
+		return k
+	}
+	k := runeRe.ReplaceAllString(byteRe.ReplaceAllString(types.TypeString(t, nil), "uint8"), "int32")
+	typeKeyCache[t] = k
+	return k
 }
 
 // heap variable names
